@@ -20,7 +20,13 @@ def catalogue():
 def run_one(m):
     scratch = tempfile.mkdtemp(prefix="peppi-mut-")
     try:
-        subprocess.check_call(["rsync", "-a", "--exclude", "target", "--exclude", ".git", REPO + "/", scratch + "/"])
+        if os.environ.get("PEPPI_SNAPSHOT") == "head":
+            # development runs: copy HEAD's tree, so that a seeded change being applied to /repo's working tree meanwhile is not picked up
+            tar = subprocess.Popen(["git", "-C", REPO, "archive", "HEAD"], stdout=subprocess.PIPE)
+            subprocess.check_call(["tar", "-x", "-C", scratch], stdin=tar.stdout)
+            tar.wait()
+        else:
+            subprocess.check_call(["rsync", "-a", "--exclude", "target", "--exclude", ".git", REPO + "/", scratch + "/"])
         patch = os.path.join(VERIF, m["patch"])
         r = subprocess.run(["patch", "-p1", "--no-backup-if-mismatch", "-s", "-d", scratch, "-i", patch], capture_output=True, text=True)
         if r.returncode != 0:
@@ -35,6 +41,13 @@ def run_one(m):
         return m, "ran", results
     finally:
         shutil.rmtree(scratch, ignore_errors=True)
+
+
+def run_patch(patch, pids):
+    """apply one patch file to a scratch copy of /repo's working tree and run the quick tier of the given checks on it:
+    ("ran", {pid: (rc, stdout)}) or ("patch-failed", text)"""
+    m, status, res = run_one({"patch": os.path.relpath(patch, VERIF), "caught_by": list(pids)})
+    return status, res
 
 
 def main():
